@@ -9,5 +9,10 @@ CHECKS = {
   'design_ref': 'DESIGN.md 5/C14',
   'note': 'Bounds: <= 3 collection nodes (4 for merge-only alphabets; thorough 5), <= 2 entries per mapping. Keys compared modulo Python equality; key order only checked where the mapping has no merge key (as the statement says). Trusted: TLC, the flow-style printer and matcher in harness/props/c14.py.',
   'technique': 'TLA+ model (MapMeaning.tla: H meaning vs L in-place flattening) checked by TLC, every state replayed as a document through the real loaders'},
+ 'C13': {
+  'text': 'Bounded-exhaustive model checking of spec/Composer.tla: every event stream up to the bound (anchors on scalars and collections, aliases backward / undefined / nested / self-referential / across documents, plain, !!set and python/object mappings) is run through the composer model (anchors table registered before children, cleared per document) and TLC checks it against the rule written on the event list alone; every complete stream is printed, composed and loaded by the real loaders and the identity partition of node and object graphs, and the error class, are compared with the state.',
+  'design_ref': 'DESIGN.md 5/C13',
+  'note': 'Bounds: <= 7 events (thorough 8), <= 2 documents, anchors {a,b}. Identity compared for list, dict, set, constructed objects (and all nodes at compose level). Trusted: TLC, printer and projections in harness/props/c13.py.',
+  'technique': 'TLA+ model (Composer.tla) checked by TLC with lazy input choice, every complete stream replayed through compose_all/load_all'},
 }
 NOT_YET = {}
